@@ -1,7 +1,200 @@
-(* C12 - directory-tree signatures (statements only).  Being filled in. *)
-From LLB Require Import Base.Bytes Codec.Codec Codec.FileObs BSys.DirTree.
+(* C12 - directory-tree signatures change exactly when the tree changes.
+   Only theorem statements; each is closed by [exact <lemma>] and followed by Print Assumptions.
+   Model: BSys/DirTree.v (observe -> rebuild -> tree_toks / struct_toks -> sig); proofs: BSys/DirTreeProofs.v.
+   [matches] is fnmatch (a variable in every statement); [H] is the hash (a variable; its ideal-hash premise
+   [hash_good] is restricted to the finite set of argument lists that occur). *)
+From LLB Require Import Base.Bytes Codec.Codec Codec.FileObs Path.PathPrefix BSys.DirTree BSys.DirTreeProofs.
 Local Open Scope N_scope.
 
-Theorem c12_nil_constant : nil_const = 13944155568590058030.
-Proof. reflexivity. Qed.
-Print Assumptions c12_nil_constant.
+(* ---------------------------------------------------------------- the directory-tree signature *)
+
+(* Equal tokens <-> the same observed tree up to the order of the directory entries (canon sorts every level),
+   for ALL well-formed trees, any depth and fan-out.  Nothing of the recorded information is ignored. *)
+Theorem c12_tree_tokens_injective : forall matches p v1 v2, wf_v v1 -> wf_v v2 ->
+  (tree_tokens matches [] p v1 = tree_tokens matches [] p v2 <-> canon v1 = canon v2).
+Proof. exact tree_tokens_injective. Qed.
+Print Assumptions c12_tree_tokens_injective.
+
+(* Any single edit - a record changed (content, size, times, inode, mode), an entry added, removed, renamed,
+   replaced by something else - at ANY depth changes the tokens. *)
+Theorem c12_tree_sig_detects : forall matches p v v', wf_v v -> wf_v v' -> sorted_v v -> sorted_v v' ->
+  edit1 v v' -> tree_tokens matches [] p v <> tree_tokens matches [] p v'.
+Proof. exact tree_sig_detects. Qed.
+Print Assumptions c12_tree_sig_detects.
+
+(* ... and, under the ideal-hash premise on the argument lists that occur, the 64-bit signature. *)
+Theorem c12_tree_signature_detects : forall matches H p v v', wf_v v -> wf_v v' -> sorted_v v -> sorted_v v' -> edit1 v v' ->
+  hash_good H (hashed H (tree_tokens matches [] p v) ++ hashed H (tree_tokens matches [] p v')) ->
+  sig H (tree_tokens matches [] p v) <> sig H (tree_tokens matches [] p v').
+Proof. exact tree_signature_detects. Qed.
+Print Assumptions c12_tree_signature_detects.
+
+(* Equal trees give equal tokens (no premise), hence equal signatures for any hash. *)
+Theorem c12_tree_sig_stable : forall matches p v1 v2, canon v1 = canon v2 ->
+  tree_tokens matches [] p v1 = tree_tokens matches [] p v2.
+Proof. exact tree_sig_stable. Qed.
+Print Assumptions c12_tree_sig_stable.
+
+(* Incremental builds, any database state [s]: the command with the directory-tree input is left alone EXACTLY when
+   the tree on disk agrees with the recorded one in everything FileInfo::operator== compares (cmp_sim: same entries,
+   and per object device, inode, size, mtime, checksum - not the mode). *)
+Theorem c12_rerun_iff : forall matches p s v, wf_s s -> wf_s (rebuild matches [] s v) -> sorted_v v -> nodup_v v ->
+  (tree_unchanged matches [] p s v <-> cmp_sim (eff s) v).
+Proof. exact rerun_iff. Qed.
+Print Assumptions c12_rerun_iff.
+
+(* A second build over an unchanged tree runs neither command, whatever the database held before. *)
+Theorem c12_null_build_stable : forall matches p s v, sorted_v v -> nodup_v v ->
+  tree_unchanged matches [] p (rebuild matches [] s v) v /\ struct_unchanged matches [] p (rebuild matches [] s v) v.
+Proof. exact null_build_stable. Qed.
+Print Assumptions c12_null_build_stable.
+
+(* REFUTED clause (known finding tree-misses-mode-change): "a file's metadata changed" - a change of the permission
+   bits alone IS an edit and changes the clean tokens, but the incremental build keeps the stored record
+   (FileInputNodeTask::isResultValid uses FileInfo::operator==, which skips the mode). *)
+Theorem c12_mode_change_unseen_refuted : forall matches p,
+  edit1 w_v0 w_v0_chmod /\
+  tree_tokens matches [] p w_v0 <> tree_tokens matches [] p w_v0_chmod /\
+  tree_unchanged matches [] p (clean_build matches [] w_v0) w_v0_chmod.
+Proof. exact mode_change_unseen. Qed.
+Print Assumptions c12_mode_change_unseen_refuted.
+
+(* ---------------------------------------------------------------- the directory-structure signature *)
+
+(* Equal structure tokens <-> the same names and file types (mode & S_IFMT) at every depth. *)
+Theorem c12_struct_tokens_injective : forall matches p v1 v2, wf_v v1 -> wf_v v2 ->
+  (struct_tokens matches [] p v1 = struct_tokens matches [] p v2 <-> shape_of (canon v1) = shape_of (canon v2)).
+Proof. exact struct_tokens_injective. Qed.
+Print Assumptions c12_struct_tokens_injective.
+
+(* Changes of size, times, inode, device or permission bits only - at any depth - leave the tokens equal ... *)
+Theorem c12_structure_ignores_content : forall matches p v1 v2, sorted_v v1 -> sorted_v v2 -> same_structure v1 v2 ->
+  struct_tokens matches [] p v1 = struct_tokens matches [] p v2.
+Proof. exact structure_ignores_content. Qed.
+Print Assumptions c12_structure_ignores_content.
+
+(* ... and never re-run the structure command in an incremental build, whatever the database state. *)
+Theorem c12_structure_incremental_ignores_content : forall matches p s v, sorted_v v -> nodup_v v ->
+  same_structure (eff s) v -> struct_unchanged matches [] p s v.
+Proof. exact structure_incremental_ignores_content. Qed.
+Print Assumptions c12_structure_incremental_ignores_content.
+
+(* An entry added, removed, renamed, or changing its file type (also to / from missing), at ANY depth, changes them. *)
+Theorem c12_structure_detects : forall matches p v v', wf_v v -> wf_v v' -> sorted_v v -> sorted_v v' ->
+  sedit1 v v' -> struct_tokens matches [] p v <> struct_tokens matches [] p v'.
+Proof. exact structure_detects. Qed.
+Print Assumptions c12_structure_detects.
+
+Theorem c12_struct_signature_detects : forall matches H p v v', wf_v v -> wf_v v' -> sorted_v v -> sorted_v v' -> sedit1 v v' ->
+  hash_good H (hashed H (struct_tokens matches [] p v) ++ hashed H (struct_tokens matches [] p v')) ->
+  sig H (struct_tokens matches [] p v) <> sig H (struct_tokens matches [] p v').
+Proof. exact struct_signature_detects. Qed.
+Print Assumptions c12_struct_signature_detects.
+
+(* ---------------------------------------------------------------- the hash *)
+
+(* Equal signatures mean equal token trees as soon as the hash does not collide (and stays below 2^64) on the
+   argument lists hashed while computing the two signatures. *)
+Theorem c12_sig_injective : forall H l1 l2, Forall tok_ok l1 -> Forall tok_ok l2 ->
+  hash_good H (hashed H l1 ++ hashed H l2) -> sig H l1 = sig H l2 -> l1 = l2.
+Proof. exact sig_injective. Qed.
+Print Assumptions c12_sig_injective.
+
+(* ---------------------------------------------------------------- exclusion patterns *)
+
+(* A name is absent from the recorded listing iff some pattern matches it ... *)
+Theorem c12_filter_exact_listing : forall matches flt i cs n,
+  In n (listing matches flt (VNode i cs)) <-> In n (names cs) /\ excluded matches flt n = false.
+Proof. exact listing_exact. Qed.
+Print Assumptions c12_filter_exact_listing.
+
+Theorem c12_excluded_spec : forall matches flt n,
+  excluded matches flt n = true <-> exists pat, In pat flt /\ matches pat n = true.
+Proof. exact excluded_spec. Qed.
+Print Assumptions c12_excluded_spec.
+
+(* ... and the filtered signatures are the (filtered-mode) signatures of the pruned tree, *)
+Theorem c12_filter_exact_tokens : forall matches flt p v,
+  tree_tokens matches flt p v = tree_toks (nonempty flt) p (clean_build matches [] (prune matches flt v)) /\
+  struct_tokens matches flt p v = struct_toks (nonempty flt) p (clean_build matches [] (prune matches flt v)).
+Proof. intros matches flt p v. exact (conj (filtered_tokens_pruned matches flt p v) (filtered_struct_tokens_pruned matches flt p v)). Qed.
+Print Assumptions c12_filter_exact_tokens.
+
+(* so whatever happens beneath excluded names is invisible to both. *)
+Theorem c12_excluded_edits_invisible : forall matches flt p v1 v2, prune matches flt v1 = prune matches flt v2 ->
+  tree_tokens matches flt p v1 = tree_tokens matches flt p v2 /\
+  struct_tokens matches flt p v1 = struct_tokens matches flt p v2.
+Proof. exact excluded_edits_invisible. Qed.
+Print Assumptions c12_excluded_edits_invisible.
+
+(* REFUTED clause (known finding filtered-listing-stale): with patterns a non-excluded entry added while the directory's
+   own record stays the same is seen by neither command (the stored filtered listing is reused); without patterns both
+   see it. *)
+Theorem c12_filtered_listing_stale_refuted :
+  excluded lit_match [w_x_tmp] w_new = false /\
+  In w_new (names (match w_d1 with VNode _ cs => cs | VMissing => [] end)) /\
+  tree_unchanged lit_match [w_x_tmp] w_tree (clean_build lit_match [w_x_tmp] w_d0) w_d1 /\
+  struct_unchanged lit_match [w_x_tmp] w_tree (clean_build lit_match [w_x_tmp] w_d0) w_d1 /\
+  ~ tree_unchanged lit_match [] w_tree (clean_build lit_match [] w_d0) w_d1 /\
+  ~ struct_unchanged lit_match [] w_tree (clean_build lit_match [] w_d0) w_d1.
+Proof. exact filtered_listing_stale. Qed.
+Print Assumptions c12_filtered_listing_stale_refuted.
+
+(* ---------------------------------------------------------------- symbolic links *)
+
+(* REFUTED clause (known finding symlink-seen-through): "retyped" - a link and a hard link to its target are the same
+   observed tree (all signatures equal); a link to a regular file and another regular file differ for the tree
+   signature only. *)
+Theorem c12_symlink_seen_through_refuted : forall matches skip,
+  w_t_link <> w_t_hard /\
+  observe skip w_tree w_t_link = observe skip w_tree w_t_hard /\
+  struct_tokens matches [] w_tree (observe skip w_tree w_t_link) = struct_tokens matches [] w_tree (observe skip w_tree w_t_file) /\
+  tree_tokens matches [] w_tree (observe skip w_tree w_t_link) <> tree_tokens matches [] w_tree (observe skip w_tree w_t_file).
+Proof. exact symlink_seen_through. Qed.
+Print Assumptions c12_symlink_seen_through_refuted.
+
+(* ---------------------------------------------------------------- the code before its repairs (inputs kept in the corpus) *)
+
+(* 9d17fc1: the ancestor test of getContents was a string-prefix test and hid a link to a sibling *)
+Theorem c12_ancestor_test_unrepaired_refuted :
+  pip w_p2 w_rp = false /\
+  observe_unrepaired true w_p2 w_t_sib = VNode (w_dir 20 100) [] /\
+  observe true w_p2 w_t_sib = VNode (w_dir 20 100) [(w_l, VNode (w_dir 10 100) [(w_a, VNode w_fa [])])].
+Proof. exact ancestor_test_unrepaired_refuted. Qed.
+Print Assumptions c12_ancestor_test_unrepaired_refuted.
+
+(* c2e7355: the structure signature hashed the permission bits *)
+Theorem c12_structure_unrepaired_refuted : forall matches,
+  same_structure w_v0 w_v0_perm /\
+  struct_toks_unrepaired false w_tree (clean_build matches [] w_v0) <> struct_toks_unrepaired false w_tree (clean_build matches [] w_v0_perm) /\
+  struct_tokens matches [] w_tree w_v0 = struct_tokens matches [] w_tree w_v0_perm.
+Proof. exact structure_unrepaired_refuted. Qed.
+Print Assumptions c12_structure_unrepaired_refuted.
+
+(* e9065fb: the filtered listing ended at the first entry whose stat fails *)
+Theorem c12_truncating_listing_refuted :
+  observe_truncating false w_tree w_t_dangling = VNode (w_dir 10 100) [] /\
+  observe false w_tree w_t_dangling = VNode (w_dir 10 100) [(w_l, VMissing); (w_a, VNode w_fa [])].
+Proof. exact truncating_listing_refuted. Qed.
+Print Assumptions c12_truncating_listing_refuted.
+
+(* ---------------------------------------------------------------- non-vacuity *)
+
+Example c12_detects_instance : forall matches, tree_tokens matches [] w_tree w_v0 <> tree_tokens matches [] w_tree w_v1.
+Proof. exact ex_tree_detects. Qed.
+
+Example c12_structure_ignores_instance : forall matches, struct_tokens matches [] w_tree w_v0 = struct_tokens matches [] w_tree w_v1.
+Proof. exact ex_structure_ignores. Qed.
+
+Example c12_null_build_instance : forall matches,
+  tree_unchanged matches [] w_tree (rebuild matches [] (clean_build matches [] w_v0) w_v1) w_v1.
+Proof. exact ex_null_build. Qed.
+
+Example c12_filter_instance :
+  listing lit_match [w_x_tmp] (VNode (w_dir 10 100) [(w_x_tmp, VNode w_fa []); (w_a, VNode w_fa [])]) = [w_a].
+Proof. exact ex_filter_exact. Qed.
+
+Example c12_hash_premise_instance : forall H : list ftok -> N,
+  hash_good H (hashed H [TStr w_a; TSub VDirectoryTreeSignature [TStr w_b]]) ->
+  u64 (H [FStr w_b]) /\ (H [FStr w_b] = H [FStr w_a; FBytes (enc_value (mkBV VDirectoryTreeSignature (H [FStr w_b]) [] []))] -> False).
+Proof. exact ex_hash_premise_meaning. Qed.
